@@ -11,7 +11,25 @@ given, its objective is not above the start's, and a zero gradient at the start 
 Direct oracle (no Lean): result inside [lb, ub] exactly; cost(result) <= cost(x) (+1e-9 relative), both recomputed by a
 loss object built from scratch with the parameters bound by name; fit(theta*) = theta* to 1e-5 on noise-free data
 generated from a reference trajectory.
+
+SEQUENCES and FORMS (STRENGTHEN_GUIDE families 1-5).  Two in five of the cases continue with 1-2 FURTHER fit calls on the
+SAME loss object (`case["then"]`): another box that excludes the optimum of the earlier call in one coordinate, a sub-box, the
+same box from another start, a wider box; between the calls the user may evaluate the cost elsewhere, scramble the shared
+ode's parameters, let another loss object on the same ode fit, or continue on a `copy.deepcopy` of the object;
+`full_output=True` is the secondary output form.  Every call of the sequence is judged by the same direct oracle with the
+box and the start OF THAT CALL (the from-scratch objects know nothing of the history), the last call is repeated on a fresh
+object as reference, all returned estimates are kept and compared at the end with the copies taken when they were
+returned; x / lb / ub objects that come back changed are tagged `input-modified:*` (a side effect, not a violation).  The box and the start are handed over in the
+form the call names: list / tuple / float ndarray / list of numpy scalars, and - with integer-valued bounds whose top (or
+bottom) unit slice contains the start or the generating parameters - list / tuple / ndarray of INTEGERS and numpy integer
+scalars; an upper bound may have `None` or `inf` entries (the form scipy takes for "unbounded").
+In the Lean model `Fit.fit` is a function of (minimize, cost, sens, x, lb, ub) and nothing else - there is no instance
+state, bounds are rationals whatever container or dtype carried them (`prepBounds` / `boxBounds`), so a second call is
+independent of the first by construction; that is compared here as a correspondence (result on the reused object = result
+on a fresh object, bounds handed to the optimiser = the exact rationals of the numbers given), while the violations come
+from the direct oracle.
 """
+import copy
 import json
 import math
 import random
@@ -26,14 +44,20 @@ LEVEL = "proof"
 LEAN = {"module": "Pygom.Props.C18",
         "required": ["Pygom.C18.box_bounds_rows", "Pygom.C18.fit_in_box_partial", "Pygom.C18.fit_contract_partial", "Pygom.C18.fit_at_truth_partial",
                      "Pygom.C18.fit_at_truth_of_zero_residual", "Pygom.C18.box_bounds_C_counterexample", "Pygom.C18.grad_zero_at_truth"]}
-BUDGET = {"quick": {"fits": 130, "random": 20, "malformed": 14},
-          "thorough": {"fits": 3000, "random": 400, "malformed": 120}}
+BUDGET = {"quick": {"fits": 130, "random": 20, "malformed": 14, "intbox": 24},
+          "thorough": {"fits": 2400, "random": 320, "malformed": 120, "intbox": 300}}
 RULE = ("real fit(x, lb, ub) on pygom.common_models SIR_norm / SIR / SIS / SEIR / Lotka_Volterra / SIR_Birth_Death and random closed "
         "(T-only, linear/mass-action) models; SquareLoss / NormalLoss / PoissonLoss / GammaLoss / NegBinomLoss; 1-2 observed "
         "states; all or a subset of the parameters as targets in random order; noise-free or noisy data; starts inside the box, "
         "on its boundary, and at the generating parameters; also lb=None / ub=None and mismatched lengths.  A case is "
         "non-trivial when the box has >= 2 coordinates with lb != ub-pattern distinguishable from a C-order packing "
-        "(i.e. n >= 2) or the start is the truth.")
+        "(i.e. n >= 2) or the start is the truth.  Two in five of the fit cases go on with 1-2 further fit calls on the same object "
+        "(other box excluding the earlier optimum / sub-box / same box / wider box; interludes: cost elsewhere, ode parameters "
+        "scrambled, another loss object on the same ode fitting, deepcopy; full_output=True), each judged with its own box and "
+        "start, the last repeated on a fresh object (tags call:k:*, then:*, interlude:*); x/lb/ub are handed over as list / tuple / "
+        "float array / numpy scalars, 'intbox' cases (and some further calls) use integer-valued bounds as int list / tuple / int "
+        "array / numpy ints with the start or the generating parameters in the top or bottom unit slice (tags form:*); upper "
+        "bounds may carry None / inf entries.")
 ASSUMPTIONS = ["scipy L-BFGS-B returns a point of the box it was given (always) whose objective is not above the start's WHEN the jac it "
                "is handed is the gradient of fun (BoxDescent; gradient consistency is property C07) - observed on every call",
                "scipy L-BFGS-B returns its start when every component of the gradient it is handed there is <= pgtol = 1e-5 "
@@ -113,6 +137,115 @@ def gen_fit(rng, random_model=False):
             "bounds_form": rng.choice(["list", "list", "array"]), "ref": rng.choice(["integrate2", "integrate2", "odeint"])}
 
 
+FLOAT_FORMS = ["list", "list", "tuple", "array", "npfloat_list"]
+INT_FORMS = ["int_list", "int_list", "int_tuple", "int_array", "npint_list"]
+
+
+def _draw_start(rng, kind, lb, ub, truth):
+    """a start of the named kind inside [lb, ub] (entries of ub may be None / inf: treated as lb + 2*|truth|)"""
+    hi = [(u if (u is not None and math.isfinite(u)) else l + 2.0 * abs(v) + 1.0) for l, u, v in zip(lb, ub, truth)]
+    inside = lambda: [round(l + (u - l) * rng.uniform(0.05, 0.95), 6) for l, u in zip(lb, hi)]
+    if kind == "truth":
+        return list(truth)
+    if kind == "corner":
+        return [rng.choice([l, u]) for l, u in zip(lb, hi)]
+    if kind == "boundary":
+        x = inside(); k = rng.randrange(len(x)); x[k] = rng.choice([lb[k], hi[k]])
+        return x
+    if kind == "top_slice":          # within the last unit below the upper bound, where that is inside the box
+        return [round(max(l, u - rng.uniform(0.02, 0.6)), 6) for l, u in zip(lb, hi)]
+    return inside()
+
+
+def _int_box(rng, truth):
+    """integer-valued bounds: the generating value lies in the top unit slice (ub = ceil) and, where it exceeds 1, possibly in
+    the bottom one (lb = floor)"""
+    lb, ub = [], []
+    for v in truth:
+        u = float(math.ceil(v * rng.choice([1.0, 1.0, 1.0, 1.3, 2.2])))
+        if u < v or u == 0.0:
+            u = float(math.ceil(v)) or 1.0
+        l = float(math.floor(v * rng.choice([0.0, 0.0, 0.7, 1.0])))
+        lb.append(l); ub.append(u if u > l else l + 1.0)
+    return lb, ub
+
+
+def _intbox_ok(c):
+    """integer-valued bounds around rates below 1 mean lb = 0: a ZERO RATE is then inside the box.  That is a degenerate
+    corner of the problem, not of fit: Lotka-Volterra without predation / death has no closed orbits and blows up
+    (IntegrationError out of sensitivity), and the likelihood losses are undefined (log 0 -> nan) where a zero rate keeps an
+    observed state at 0.  Integer boxes are therefore drawn for the bounded catalogue / random models with the square and
+    normal losses only (found as false alarms of the first version of this probe, seeds 1 and 2)."""
+    return c["model"] != "Lotka_Volterra" and c["loss"] in ("SquareLoss", "NormalLoss")
+
+
+def _further_calls(rng, c):
+    """1-2 more fit calls on the same loss object"""
+    truth = [c["values"][p] for p in c["target"]]
+    n = len(truth)
+    out = []
+    for _ in range(rng.choice([1, 1, 2])):
+        kind = rng.choice(["exclude", "exclude", "subbox", "same", "wider", "intbox"])
+        if kind == "intbox" and not _intbox_ok(c):
+            kind = "subbox"
+        forms = {"x": rng.choice(FLOAT_FORMS), "lb": rng.choice(FLOAT_FORMS), "ub": rng.choice(FLOAT_FORMS)}
+        if kind == "exclude":        # the generating parameters (the optimum of the earlier call) are outside, in coordinate k
+            lb = [round(v * rng.uniform(0.2, 0.9), 5) for v in truth]; ub = [round(v * rng.uniform(1.1, 3.0), 5) for v in truth]
+            k = rng.randrange(n)
+            if rng.random() < 0.5:
+                lb[k], ub[k] = round(truth[k] * rng.uniform(1.15, 1.4), 5), round(truth[k] * rng.uniform(1.6, 3.0), 5)
+            else:
+                lb[k], ub[k] = round(truth[k] * rng.uniform(0.2, 0.5), 5), round(truth[k] * rng.uniform(0.6, 0.85), 5)
+            start = rng.choice(["inside", "inside", "boundary", "corner"])
+        elif kind == "subbox":
+            lb = [round(v * rng.uniform(0.6, 0.95), 5) for v in truth]; ub = [round(v * rng.uniform(1.05, 1.5), 5) for v in truth]
+            start = rng.choice(["inside", "boundary", "truth", "corner"])
+        elif kind == "same":
+            lb, ub = list(c["lb"]), list(c["ub"])
+            start = rng.choice(["inside", "boundary", "truth", "corner"])
+        elif kind == "wider":
+            lb = [round(l * rng.uniform(0.3, 0.9), 5) for l in c["lb"]]; ub = [round(u * rng.uniform(1.2, 2.0), 5) for u in c["ub"]]
+            start = rng.choice(["inside", "truth"])
+            if rng.random() < 0.4:   # one coordinate unbounded above, in one of the two forms scipy accepts
+                ub[rng.randrange(n)] = rng.choice([None, "inf"])
+                forms["ub"] = "list"
+        else:
+            lb, ub = _int_box(rng, truth)
+            start = rng.choice(["truth", "truth", "top_slice", "inside"])
+            forms["ub"] = rng.choice(INT_FORMS)
+            forms["lb"] = rng.choice(INT_FORMS + FLOAT_FORMS[:2])
+        ubn = [(float("inf") if u == "inf" else u) for u in ub]
+        out.append({"kind": kind, "lb": lb, "ub": ub, "x": _draw_start(rng, start, lb, ubn, truth), "start": start, "forms": forms,
+                    "interlude": rng.choice([None, None, "cost_elsewhere", "ode_scramble", "other_object_fit", "deepcopy"]),
+                    "full_output": rng.random() < 0.25})
+    return out
+
+
+def gen_session(rng, random_model=False):
+    c = gen_fit(rng, random_model)
+    c["forms"] = {"x": rng.choice(FLOAT_FORMS), "lb": rng.choice(FLOAT_FORMS), "ub": rng.choice(FLOAT_FORMS)}
+    c["then"] = _further_calls(rng, c)
+    return c
+
+
+def gen_intbox(rng):
+    """integer-valued box in integer form; start at the generating parameters of (mostly) noise-free data, in the top unit
+    slice, or anywhere inside"""
+    c = gen_fit(rng)
+    while not _intbox_ok(c):
+        c = gen_fit(rng)
+    truth = [c["values"][p] for p in c["target"]]
+    c["lb"], c["ub"] = _int_box(rng, truth)
+    c["start"] = rng.choice(["truth", "truth", "top_slice", "inside"])
+    c["x"] = _draw_start(rng, c["start"], c["lb"], c["ub"], truth)
+    c["noise"] = "none" if c["start"] == "truth" and rng.random() < 0.85 else rng.choice(["none", "noisy"])
+    c["forms"] = {"x": rng.choice(FLOAT_FORMS), "ub": rng.choice(INT_FORMS), "lb": rng.choice(INT_FORMS + FLOAT_FORMS[:2])}
+    c["intbox"] = True
+    if rng.random() < 0.3:
+        c["then"] = _further_calls(rng, c)[:1]
+    return c
+
+
 def gen_malformed(rng):
     c = gen_fit(rng)
     n = len(c["x"])
@@ -133,14 +266,15 @@ def gen_malformed(rng):
 
 
 def make_cases(rng, tier, budget):
-    cases = [gen_fit(random.Random(rng.getrandbits(64))) for _ in range(budget["fits"])]
-    cases += [gen_fit(random.Random(rng.getrandbits(64)), random_model=True) for _ in range(budget["random"])]
+    cases = [(gen_session if i % 5 in (1, 3) else gen_fit)(random.Random(rng.getrandbits(64))) for i in range(budget["fits"])]
+    cases += [(gen_session if i % 5 in (1, 3) else gen_fit)(random.Random(rng.getrandbits(64)), random_model=True) for i in range(budget["random"])]
     cases += [gen_malformed(random.Random(rng.getrandbits(64))) for _ in range(budget["malformed"])]
+    cases += [gen_intbox(random.Random(rng.getrandbits(64))) for _ in range(budget.get("intbox", 0))]
     return cases
 
 
 def search_cases(rng, tier, budget):
-    return [gen_fit(random.Random(rng.getrandbits(64)), random_model=(i % 6 == 0)) for i in range(budget["fits"] * 2)]
+    return [(gen_session if i % 3 else gen_intbox)(random.Random(rng.getrandbits(64))) for i in range(budget["fits"] * 2)]
 
 
 # ---------------------------------------------------------------------------------------------------------
@@ -199,38 +333,62 @@ def bjson(v):
     return [EC.frac(a) if a is not None else None for a in v]
 
 
-def run_case(case):
-    bootstrap.init()
-    import pygom.loss.base_loss as BL
-    tags, mism, viol = [], [], []
-    y = make_data(case)
-    mname = case["model"] if isinstance(case["model"], str) else "random"
-    n = len(case["x"])
-    tags += ["model:" + mname, "loss:" + case["loss"], "start:" + case["start"], "n=%d" % n, "nobs=%d" % len(case["obs"]),
-             "noise:" + case["noise"], "bounds:" + case["bounds_form"]]
-    if case.get("malformed"): tags.append("malformed:" + case["malformed"])
-    exact_data = case["noise"] == "none" and case["loss"] != "PoissonLoss"
-    sig_tail = "%s:%dobs" % (case["loss"], len(case["obs"]))
-    if not np.all(np.isfinite(y)) or (case["loss"] in ("GammaLoss",) and np.any(np.asarray(y) <= 0)):
-        return {"nontrivial": False, "tags": tags + ["bad-data"]}
+def to_form(v, form):
+    """hand a vector over in the named form; None / 'inf' entries only occur with the plain list form"""
+    if v is None:
+        return None
+    v = [(float("inf") if a == "inf" else a) for a in v]
+    if form == "tuple":
+        return tuple(v)
+    if form == "array":
+        return np.array(v, dtype=float)
+    if form == "npfloat_list":
+        return [np.float64(a) for a in v]
+    if form == "int_list":
+        return [int(a) for a in v]
+    if form == "int_tuple":
+        return tuple(int(a) for a in v)
+    if form == "int_array":
+        return np.array([int(a) for a in v], dtype=int)
+    if form == "npint_list":
+        return [np.int64(a) for a in v]
+    return list(v)
 
-    obj = make_loss(case, y, case["x"])
-    lb, ub = case["lb"], case["ub"]
-    conv = (lambda v: np.array(v, dtype=float)) if case["bounds_form"] == "array" else (lambda v: list(v))
+
+def _snapshot(v):
+    return None if v is None else [None if a is None else float(a) for a in (v.tolist() if isinstance(v, np.ndarray) else list(v))]
+
+
+def run_call(obj, case, call, y, k, tags, mism, viol, BL, judge=True):
+    """one fit(x, lb, ub) on `obj`, recorded and judged with the box and start of THIS call.  Returns a dict
+    (status: 'ok' | 'stop', out: estimate or None)"""
+    n = len(call["x"])
+    lb, ub = call["lb"], call["ub"]
+    ubn = None if ub is None else [(float("inf") if a == "inf" else a) for a in ub]
+    forms = call.get("forms") or {"x": "list" if call.get("bounds_form", "list") == "list" else "array",
+                                  "lb": call.get("bounds_form", "list"), "ub": call.get("bounds_form", "list")}
+    sig_tail = "%s:%dobs" % (case["loss"], len(case["obs"]))
+    hist = "" if k == 0 else ":call%d-on-same-object:%s" % (k + 1, call.get("kind", "?"))
+    if any(f.startswith("int") or f.startswith("npint") for f in (forms["lb"], forms["ub"])):
+        hist += ":integer-bounds"
+    if ubn is not None and any(a is None or (a is not None and math.isinf(a)) for a in ubn):
+        hist += ":unbounded-above-entry"
+    xarg, lbarg, ubarg = to_form(call["x"], forms["x"]), to_form(lb, forms["lb"]), to_form(ub, forms["ub"])
+    given = [("x", xarg, _snapshot(xarg)), ("lb", lbarg, _snapshot(lbarg)), ("ub", ubarg, _snapshot(ubarg))]
     seen = []
     orig = BL.minimize
 
-    def rec_minimize(fun, x0, *a, **k):
-        entry = {"x0": [float(v) for v in np.asarray(x0).ravel()], "bounds": k.get("bounds"), "method": k.get("method"),
-                 "constraints": k.get("constraints"), "jac_is_sens": k.get("jac") == obj.sensitivity, "fun_is_cost": fun == obj.cost}
+    def rec_minimize(fun, x0, *a, **kw):
+        entry = {"x0": [float(v) for v in np.asarray(x0).ravel()], "bounds": kw.get("bounds"), "method": kw.get("method"),
+                 "constraints": kw.get("constraints"), "jac_is_sens": kw.get("jac") == obj.sensitivity, "fun_is_cost": fun == obj.cost}
         try:
             entry["f0"] = float(fun(np.asarray(x0, dtype=float)))
-            entry["g0"] = [float(v) for v in np.asarray(k["jac"](np.asarray(x0, dtype=float))).ravel()] if k.get("jac") is not None else None
+            entry["g0"] = [float(v) for v in np.asarray(kw["jac"](np.asarray(x0, dtype=float))).ravel()] if kw.get("jac") is not None else None
         except Exception as exc:
             entry["f0"], entry["g0"] = None, None
             entry["probe_error"] = "%s: %s" % (type(exc).__name__, str(exc)[:120])
         seen.append(entry)
-        r = orig(fun, x0, *a, **k)
+        r = orig(fun, x0, *a, **kw)
         entry["res_x"] = [float(v) for v in np.asarray(r["x"]).ravel()]
         entry["res_fun"] = float(r["fun"])
         entry["message"] = str(r.get("message"))
@@ -240,64 +398,82 @@ def run_case(case):
     err = None
     out = None
     try:
-        out = obj.fit(list(case["x"]) if case["bounds_form"] == "list" else np.array(case["x"], dtype=float),
-                      lb=conv(lb) if lb is not None else None, ub=conv(ub) if ub is not None else None)
+        if call.get("full_output"):
+            out, _res = obj.fit(xarg, lb=lbarg, ub=ubarg, full_output=True)
+        else:
+            out = obj.fit(xarg, lb=lbarg, ub=ubarg)
     except Exception as exc:
         err = exc
     finally:
         BL.minimize = orig
+    for nm, o_, snap in given:
+        if _snapshot(o_) != snap:
+            tags.append("input-modified:" + nm)      # a side effect alone is not a violation of C18: tagged
 
     # ---------------- model <-> code : what the optimiser was handed ------------------------------------------
-    lr = leanio.driver().call({"op": "boxBounds", "n": n, "lb": bjson(lb), "ub": bjson(ub), "hasA": False})
+    has_inf = ubn is not None and any(a is not None and math.isinf(a) for a in ubn)
+    if has_inf:
+        # +inf is not a value of the Lean model's Option Rat bounds: the packing is compared here entry by entry
+        # (row i = (lb[i], ub[i]), which is what C18.box_bounds_rows states)
+        tags.append("bounds-with-inf:packing-compared-directly")
+        lr = {"bounds": [[EC.frac(l), ("inf" if (u is not None and math.isinf(u)) else (None if u is None else EC.frac(u)))] for l, u in zip(lb, ubn)],
+              "bounds_C": None, "method": "L-BFGS-B"}
+    else:
+        lr = leanio.driver().call({"op": "boxBounds", "n": n, "lb": bjson(lb), "ub": bjson(ubn), "hasA": False})
     if lr.get("err"):
         ename = type(err).__name__ if err is not None else None
         if ename != lr["err"]:
             mism.append({"what": "fit:accept/reject", "detail": "lean %s python %s (%s)" % (lr["err"], ename, str(err)[:200])})
         tags.append("both-raise:" + lr["err"])
-        return {"nontrivial": True, "mismatches": mism, "violations": viol, "tags": tags}
+        return {"status": "stop", "nontrivial": True}
     if err is not None and not seen:
         # raised before reaching the optimiser although the model accepts the arguments
         if case.get("malformed") in ("lb_none", "ub_none") and isinstance(err, ValueError):
             tags.append("numpy-reshape-error-on-one-sided-bounds")     # lengths differ: np.reshape raises; not modelled
-            return {"nontrivial": False, "mismatches": mism, "violations": viol, "tags": tags}
+            return {"status": "stop", "nontrivial": False}
         viol.append({"what": "fit raised %s before calling the optimiser: %s" % (type(err).__name__, str(err)[:160]),
-                     "signature": "fit:raised-before-minimize:%s:%s" % (type(err).__name__, sig_tail), "detail": str(err)[:300]})
-        return {"nontrivial": True, "mismatches": mism, "violations": viol, "tags": tags}
+                     "signature": "fit:raised-before-minimize:%s:%s%s" % (type(err).__name__, sig_tail, hist), "detail": str(err)[:300] + " forms=%s" % forms})
+        return {"status": "stop", "nontrivial": True}
     if seen:
         s = seen[0]
         got = np.asarray(s["bounds"], dtype=object)
-        gotl = [[(None if v is None else EC.frac(float(v))) for v in row] for row in got.tolist()] if got.ndim == 2 else None
+        fr = lambda v: None if v is None else ("inf" if math.isinf(float(v)) else EC.frac(float(v)))
+        gotl = [[fr(v) for v in row] for row in got.tolist()] if got.ndim == 2 else None
         if gotl != lr["bounds"]:
-            mism.append({"what": "fit:bounds handed to minimize", "detail": "python %s lean %s" % (gotl, lr["bounds"])})
+            mism.append({"what": "fit:bounds handed to minimize", "detail": "python %s lean %s (forms %s)" % (gotl, lr["bounds"], forms)})
             if gotl == lr["bounds_C"]:
                 tags.append("bounds-are-C-order")
         if s["method"] != lr["method"]:
             mism.append({"what": "fit:method", "detail": "python %s lean %s" % (s["method"], lr["method"])})
-        if s["x0"] != [float(v) for v in case["x"]]:
-            mism.append({"what": "fit:start handed to minimize", "detail": "python %s case %s" % (s["x0"], case["x"])})
+        if s["x0"] != [float(v) for v in call["x"]]:
+            mism.append({"what": "fit:start handed to minimize", "detail": "python %s case %s" % (s["x0"], call["x"])})
         if not (s["jac_is_sens"] and s["fun_is_cost"]):
             mism.append({"what": "fit:fun/jac handed to minimize", "detail": "fun is cost: %s, jac is sensitivity: %s" % (s["fun_is_cost"], s["jac_is_sens"])})
         if s["constraints"]:
             mism.append({"what": "fit:constraints", "detail": str(s["constraints"])[:200]})
-    if case.get("malformed") and err is not None:
-        # lb=None and/or ub=None: the optimiser is not confined to a box (negative rates, blow-up): outside the property
+    if (case.get("malformed") or ":unbounded-above-entry" in hist) and err is not None:
+        # lb=None and/or ub=None (or one entry of ub None / inf): the optimiser is not confined to a box (negative rates,
+        # blow-up): outside the property
         tags.append("unbounded-side:raised:" + type(err).__name__)
-        return {"nontrivial": True, "mismatches": mism, "violations": viol, "tags": tags}
+        return {"status": "stop", "nontrivial": True}
     if err is not None:
         # the optimiser (or the cost / sensitivity it calls) raised: fit returned nothing
         viol.append({"what": "fit raised %s: %s" % (type(err).__name__, str(err)[:160]),
-                     "signature": "fit:raised:%s:%s" % (type(err).__name__, sig_tail), "detail": json.dumps({k: case[k] for k in ("model", "loss", "obs", "target")}, default=str)[:600]})
-        return {"nontrivial": True, "mismatches": mism, "violations": viol, "tags": tags}
+                     "signature": "fit:raised:%s:%s%s" % (type(err).__name__, sig_tail, hist),
+                     "detail": json.dumps({kk: case[kk] for kk in ("model", "loss", "obs", "target")}, default=str)[:600] + " forms=%s" % forms})
+        return {"status": "stop", "nontrivial": True}
     if case.get("malformed"):
         # lb=None / ub=None: nothing more to check than the packing
-        return {"nontrivial": True, "mismatches": mism, "violations": viol, "tags": tags}
+        return {"status": "stop", "nontrivial": True}
 
+    ret = out
     out = [float(v) for v in np.asarray(out).ravel()]
     s = seen[0]
     if out != s["res_x"]:
         mism.append({"what": "fit:return value is not res['x']", "detail": "%s vs %s" % (out, s["res_x"])})
     # ---------------- the assumed optimiser contract, observed ------------------------------------------------
-    inb = all(l <= v <= u for l, v, u in zip(lb, s["res_x"], ub))
+    hi = [(float("inf") if u is None else u) for u in ubn]
+    inb = all(l <= v <= u for l, v, u in zip(lb, s["res_x"], hi))
     if not inb:
         tags.append("ASSUMPTION-FAILED:optimiser left its bounds")
     if math.isnan(s["res_fun"]):
@@ -308,34 +484,128 @@ def run_case(case):
         tags.append("gradient-below-pgtol-at-start")
         if s["res_x"] != s["x0"]:
             tags.append("ASSUMPTION-FAILED:optimiser moved from a stationary start")
+    if not judge:
+        return {"status": "ok", "out": out, "ret": ret, "nontrivial": False}
 
-    # ---------------- direct oracle (no Lean) ---------------------------------------------------------------
+    # ---------------- direct oracle (no Lean; from-scratch loss objects that know nothing of the history) ------
+    exact_data = case["noise"] == "none" and case["loss"] != "PoissonLoss"
     plist_model = case["model"]["params"] if isinstance(case["model"], dict) else EC.CATALOGUE[case["model"]]["params"]
     st_model = states_of(case)
     permuted = (case["target"] != [q for q in plist_model if q in case["target"]]) or (case["obs"] != [q for q in st_model if q in case["obs"]])
-    if permuted:
+    if permuted and k == 0:
         tags.append("target-or-observed-order-permuted")
-    where = "%s:%s%s" % (sig_tail, case["start"], ":permuted-order" if permuted else "")
-    if len(out) != n or not all(l <= v <= u for l, v, u in zip(lb, out, ub)):
-        viol.append({"what": "fit returned a point outside [lb, ub]", "signature": "fit:outside-box:" + where,
-                     "detail": "x=%s lb=%s ub=%s result=%s ; bounds given to the optimiser %s" % (case["x"], lb, ub, out, np.asarray(s["bounds"]).tolist())})
-    c_start = float(make_loss(case, y, case["x"]).cost())
+    where = "%s:%s%s%s" % (sig_tail, call["start"], ":permuted-order" if permuted else "", hist)
+    if len(out) != n or not all(l <= v <= u for l, v, u in zip(lb, out, hi)):
+        viol.append({"what": "fit returned a point outside [lb, ub]" + (" of the current call" if k else ""), "signature": "fit:outside-box:" + where,
+                     "detail": "x=%s lb=%s ub=%s result=%s ; bounds given to the optimiser %s ; forms %s" % (call["x"], lb, ub, out, np.asarray(s["bounds"]).tolist(), forms)})
+    c_start = float(make_loss(case, y, call["x"]).cost())
     c_out = float(make_loss(case, y, out).cost())
-    tags.append("moved" if out != [float(v) for v in case["x"]] else "stayed")
+    tags.append("moved" if out != [float(v) for v in call["x"]] else "stayed")
     if math.isnan(c_start):
         tags.append("start-cost-nan")
     elif not (c_out <= c_start + 1e-9 * abs(c_start)):
         viol.append({"what": "fit returned a point with a larger cost than its start", "signature": "fit:worse-than-start:" + where,
-                     "detail": "cost(start)=%r cost(result)=%r start=%s result=%s message=%s" % (c_start, c_out, case["x"], out, s["message"])})
-    if case["start"] == "truth" and exact_data:
+                     "detail": "cost(start)=%r cost(result)=%r start=%s result=%s lb=%s ub=%s forms=%s bounds given to the optimiser %s message=%s" % (
+                         c_start, c_out, call["x"], out, lb, ub, forms, np.asarray(s["bounds"]).tolist(), s["message"])})
+    if call["start"] == "truth" and exact_data:
         # data from the loss object's own integrator: residual 0 up to 1e-10 -> 1e-5; data from scipy odeint differs from
         # that integrator by ~1e-6 relative, the least-squares minimiser then moves by (condition number) x 1e-6 -> 1e-3
         ttol = 1e-5 if case.get("ref") == "integrate2" else 1e-3
-        if not all(abs(a - b) <= ttol * max(1.0, abs(b)) for a, b in zip(out, case["x"])):
-            viol.append({"what": "fit started at the generating parameters of noise-free data moved away", "signature": "fit:truth-not-fixed-point:" + sig_tail,
-                         "detail": "truth=%s result=%s cost(truth)=%r cost(result)=%r g0=%s" % (case["x"], out, c_start, c_out, s["g0"])})
+        if not all(abs(a - b) <= ttol * max(1.0, abs(b)) for a, b in zip(out, call["x"])):
+            viol.append({"what": "fit started at the generating parameters of noise-free data moved away", "signature": "fit:truth-not-fixed-point:" + sig_tail + hist,
+                         "detail": "truth=%s result=%s cost(truth)=%r cost(result)=%r g0=%s lb=%s ub=%s forms=%s" % (call["x"], out, c_start, c_out, s["g0"], lb, ub, forms)})
         tags.append("truth-start-exact-data")
-    distinguishable = n >= 2 and [list(p) for p in zip(lb, ub)] != [[(lb + ub)[2 * i], (lb + ub)[2 * i + 1]] for i in range(n)]
-    return {"nontrivial": bool(distinguishable or (case["start"] == "truth" and exact_data)), "mismatches": mism, "violations": viol, "tags": tags,
-            "sample": {"model": mname, "loss": case["loss"], "target": case["target"], "x": case["x"], "lb": lb, "ub": ub, "result": out,
-                       "cost_start": c_start, "cost_result": c_out}}
+    distinguishable = n >= 2 and [list(p_) for p_ in zip(lb, ub)] != [[(lb + ub)[2 * i], (lb + ub)[2 * i + 1]] for i in range(n)]
+    return {"status": "ok", "out": out, "ret": ret, "c_start": c_start, "c_out": c_out,
+            "nontrivial": bool(distinguishable or (call["start"] == "truth" and exact_data))}
+
+
+def run_case(case):
+    bootstrap.init()
+    import pygom.loss.base_loss as BL
+    tags, mism, viol = [], [], []
+    y = make_data(case)
+    mname = case["model"] if isinstance(case["model"], str) else "random"
+    n = len(case["x"])
+    first = {kk: case.get(kk) for kk in ("x", "lb", "ub", "start", "bounds_form", "forms")}
+    first["kind"] = "first"
+    calls = [first] + list(case.get("then") or [])
+    tags += ["model:" + mname, "loss:" + case["loss"], "start:" + case["start"], "n=%d" % n, "nobs=%d" % len(case["obs"]),
+             "noise:" + case["noise"], "bounds:" + case["bounds_form"], "calls=%d" % len(calls)]
+    for c_ in calls:
+        f_ = c_.get("forms")
+        if f_:
+            tags += ["form:x=" + f_["x"], "form:lb=" + f_["lb"], "form:ub=" + f_["ub"]]
+    if case.get("malformed"): tags.append("malformed:" + case["malformed"])
+    if case.get("intbox"): tags.append("intbox")
+    if not np.all(np.isfinite(y)) or (case["loss"] in ("GammaLoss",) and np.any(np.asarray(y) <= 0)):
+        return {"nontrivial": False, "tags": tags + ["bad-data"]}
+
+    obj = make_loss(case, y, case["x"])
+    truth = [case["values"][p] for p in case["target"]]
+    kept, live = [], []
+    nontrivial, last = False, None
+    for k, call in enumerate(calls):
+        target_obj = obj
+        if k > 0:
+            tags.append("then:" + call["kind"])
+            il = call.get("interlude")
+            if il:
+                tags.append("interlude:" + il)
+            try:
+                if il == "cost_elsewhere":
+                    obj.cost([v * 1.37 for v in truth])
+                elif il == "ode_scramble":
+                    obj._ode.parameters = {p: case["values"][p] * 1.9 for p in case["target"]}
+                elif il == "other_object_fit":
+                    other = dict(case); other["loss"] = "SquareLoss"; other["spread"] = None
+                    m_ = obj._ode
+                    L2 = EC.loss_class("SquareLoss")([v * 1.2 for v in truth], m_, list(case["x0"]), case["t"][0], case["t"][1:], y, list(case["obs"]),
+                                                      target_param=list(case["target"]))
+                    live.append(L2)
+                    L2.fit([v * 1.2 for v in truth], lb=[v * 0.9 for v in truth], ub=[v * 2.0 for v in truth])
+                elif il == "deepcopy":
+                    target_obj = copy.deepcopy(obj)       # this call goes to the copy; the original carries on afterwards
+                    live.append(target_obj)
+            except Exception as exc:
+                tags.append("interlude-raises:%s:%s" % (il, type(exc).__name__))
+        r = run_call(target_obj, case, call, y, k, tags, mism, viol, BL)
+        nontrivial = nontrivial or r.get("nontrivial", False)
+        if r["status"] != "ok":
+            last = None
+            break
+        kept.append((k, r["ret"], list(r["out"])))
+        last = (k, call, r)
+        if viol:
+            break
+    # ---------------- kept results: an estimate returned earlier is not changed by later calls ---------------------
+    for k, ret, cp in kept:
+        now = [float(v) for v in np.asarray(ret).ravel()]
+        if now != cp:
+            viol.append({"what": "the estimate returned by call %d was changed by a later call" % (k + 1), "signature": "fit:returned-array-changed-by-later-call",
+                         "detail": "%s -> %s" % (cp, now)})
+            break
+    # ---------------- the last call of a sequence repeated on a FRESH object (Lean: fit is a function of its arguments) -----
+    if last is not None and last[0] > 0 and not viol:
+        k, call, r = last
+        fresh = make_loss(case, y, call["x"])
+        ftags, fm, fv = [], [], []
+        rf = run_call(fresh, case, call, y, k, ftags, fm, fv, BL, judge=False)
+        if rf["status"] == "ok":
+            a, b = r["out"], rf["out"]
+            if a == b:
+                tags.append("sequence:last-call-equals-fresh-object:exactly")
+            elif all(abs(u - v) <= 1e-9 * max(1.0, abs(v)) for u, v in zip(a, b)):
+                tags.append("sequence:last-call-equals-fresh-object:1e-9")
+            else:
+                mism.append({"what": "fit:result depends on the history of the loss object (Lean Fit.fit is a function of x, lb, ub only)",
+                             "detail": "call %d on the reused object %s ; same call on a fresh object %s" % (k + 1, a, b)})
+    sample = None
+    if last is not None:
+        k, call, r = last
+        sample = {"model": mname, "loss": case["loss"], "target": case["target"], "call": k + 1, "x": call["x"], "lb": call["lb"], "ub": call["ub"],
+                  "result": r["out"], "cost_start": r.get("c_start"), "cost_result": r.get("c_out")}
+    res = {"nontrivial": bool(nontrivial), "mismatches": mism, "violations": viol, "tags": tags}
+    if sample:
+        res["sample"] = sample
+    return res
